@@ -2,8 +2,10 @@
 C05-SET, C05-LOCK, C05-NOBLOCK (DESIGN.md §3)."""
 from collections import deque
 
+import shared_mutants
+
 from facts import (norm, show, walk, strip_refs, deep_strip, is_call_to, callee_name, find_calls,
-                   guard_conditions, option_guard, switch_edge_conds)
+                   guard_conditions, option_guard, switch_edge_conds, decision_paths, cmp_op)
 
 EXPLANATION = (
     "Decides deadlock-freedom clauses of command handling, assuming the search itself terminates once its limit is "
@@ -31,6 +33,266 @@ def run(fx, rep, tier):
     rule_noblock(fx, rep, ex, arms)
     rule_held(fx, rep, ex)
     rule_stopflag(fx, rep, ex, arms)
+    rule_limit(fx, rep)
+    rule_panic(fx, rep, ex)
+
+
+# ---- C05-PANIC -----------------------------------------------------------------------------
+
+
+def rule_panic(fx, rep, ex):
+    """The latch is set at the end of the search thread (C05-SET, on every *non-panicking* path). A panic anywhere in the code
+    that thread runs kills it before `bestmove` is printed and before the latch is set - and poisons the state mutex it
+    holds - so the next stop / go / ucinewgame waits forever. The panic sites in the call-graph cone of the spawned closure are
+    therefore discharged here exactly as in C04-CONE (same interval arguments and class table); the two mutex-lock unwraps
+    that only exist in this cone panic only on a poisoned lock, i.e. after an earlier panic."""
+    import pC04
+    import core
+    roots = [c.name for (_bb, _t, c) in spawned_closures(fx, ex) if c is not None]
+    if not roots:
+        rep.rule("C05-PANIC", 0, 0, True, "no spawned search closure found (C05-TS reports that): not decided")
+        return
+
+    def c_lock_poison(site, fx):
+        return site.family == "unwrap" and bool(site.ops) and bool(find_calls(site.ops[0], "Mutex::lock")) and \
+            (site.body.name in roots or norm(site.body.name).startswith("engine::util::sync::LockLatch::"))
+
+    extra = [("lock-poison", c_lock_poison, "Mutex::lock().unwrap() fails only on a lock poisoned by an earlier panic", "belief")]
+    sub = type(rep)(rep.prop, rep.tier)
+    q = core.QUIET
+    core.QUIET = True
+    try:
+        pC04.run_cone(fx, sub, "C05-PANIC", roots, pC04.exempt_roots(fx), 200, extra_classes=extra)
+    finally:
+        core.QUIET = q
+    for v in sub.violations:
+        rep.violation("C05-PANIC", v["key"], v["msg"] + " - in the search thread: the latch is then never set and the state mutex is poisoned, so `stop` (and every later `go`) blocks forever", v["site"])
+    rep.obligations += sub.obligations
+    rep.discharged += sub.discharged
+    rep.analysed["C05-PANIC_cone_bodies"] = sub.analysed.get("C05-PANIC_cone_bodies")
+    rep.rule("C05-PANIC", sub.obligations, 200, not sub.violations, "panic sites in the search thread's cone (shared with C04-CONE)")
+
+
+# ---- C05-LIMIT -----------------------------------------------------------------------------
+
+
+LIMIT_FNS = (("TimeStrategy::should_stop", 0), ("TimeStrategy::should_start_new_search", 1))
+
+
+def _mentions_other_param(e):
+    return any(isinstance(x, tuple) and len(x) >= 2 and x[0] == "arg" and x[1] != 1 for x in walk(e))
+
+
+def _is_force_cond(e):
+    return bool(find_calls(e, "is_force_stopped", "atomic::Atomic", "AtomicBool::load"))
+
+
+def _self_field(e):
+    """name of the TimeStrategy field `e` reads (through refs / derefs), or None"""
+    d = deep_strip(e)
+    while isinstance(d, tuple) and d and d[0] in ("ref", "deref"):
+        d = deep_strip(d[1])
+    if isinstance(d, tuple) and d and d[0] == "field" and isinstance(deep_strip(d[1]), tuple) and deep_strip(d[1])[:2] == ("arg", 1):
+        return d[2]
+    return None
+
+
+def _selected(variants, val):
+    if isinstance(val, tuple) and val and val[0] == "otherwise":
+        return {n for d, n in variants.items() if d not in val[1]}
+    return {variants.get(val)}
+
+
+def limit_verdicts(fx):
+    """Which searches are told "no time limit"? Every path of should_stop that answers `false` (and of
+    should_start_new_search that answers `true`) without consulting the clock, once the poll throttle / depth-1 /
+    stop-flag tests are set aside, must be selected by the *kind* of limit - the payload-free variant of TimeControl, or an
+    Option-typed limit that TimeStrategy::new leaves None for exactly that variant. A limit *value* used as the "no limit"
+    marker (`hard_stop.is_zero()`) is only sound if no finite limit can compute to it.
+    Returns (findings [(fn, key, msg)], instances, notes)."""
+    findings, notes, n = [], [], 0
+    try:
+        tc = fx.adt("search::TimeControl")
+    except Exception:
+        return findings, 0, ["TimeControl type not found; limit clause not decided"]
+    variants = {v["discr"]: v["name"] for v in tc["variants"]}
+    finite = {v["name"] for v in tc["variants"] if v["fields"]}
+    for fn, keep in LIMIT_FNS:
+        b = fx.one(fn)
+        paths = decision_paths(b, max_paths=400)
+        if not paths:
+            notes.append(f"`{fn}`: paths not enumerable; limit clause not decided")
+            continue
+        for conds, ret, _bb in paths:
+            if ret is None:
+                continue
+            r = deep_strip(ret)
+            if not (isinstance(r, tuple) and r and r[0] == "const" and r[1] in (keep, bool(keep))):
+                continue
+            rest = [(c, v) for (c, v) in conds if not _mentions_other_param(c)]
+            if not rest:
+                continue  # the poll throttle / "depth 1 is always searched"
+            rest = [(c, v) for (c, v) in rest if not _is_force_cond(c)]
+            n += 1
+            verdict = None
+            sentinels = []
+            for c, v in rest:
+                d = deep_strip(c)
+                if isinstance(d, tuple) and d and d[0] == "discr":
+                    f = _self_field(d[1])
+                    if f == "time_control" or f is None:
+                        sel = _selected(variants, v)
+                        if None not in sel and not (sel & finite):
+                            verdict = "variant"
+                        continue
+                    # an Option-typed limit field: value 0 = None
+                    if v == 0 or (isinstance(v, tuple) and v[0] == "otherwise" and 1 in v[1]):
+                        sentinels.append((f, "none"))
+                    continue
+                if isinstance(d, tuple) and d and d[0] == "call" and isinstance(d[1], str):
+                    truth = not (v == 0)
+                    if d[1].endswith("Duration::is_zero") and truth and _self_field(d[2][0]):
+                        sentinels.append((_self_field(d[2][0]), "zero"))
+                        continue
+                    if d[1].endswith("Option::is_none") and truth and _self_field(d[2][0]):
+                        sentinels.append((_self_field(d[2][0]), "none"))
+                        continue
+                    if d[1].endswith("Option::is_some") and not truth and _self_field(d[2][0]):
+                        sentinels.append((_self_field(d[2][0]), "none"))
+                        continue
+                    co = cmp_op(d)
+                    if co and co[0] in ("Eq", "Ne") and (co[0] == "Eq") == truth:
+                        for x, y in ((co[1], co[2]), (co[2], co[1])):
+                            if _self_field(x) and "ZERO" in show(y) or (_self_field(x) and deep_strip(y) == ("const", 0)):
+                                sentinels.append((_self_field(x), "zero"))
+            if verdict == "variant":
+                continue
+            if not sentinels:
+                if not rest:
+                    findings.append((fn, f"{fn}/unconditional", f"`{fn}` answers `{bool(keep)}` for every kind of limit once the stop flag is clear: no time limit is ever enforced there"))
+                else:
+                    notes.append(f"`{fn}`: a path answering `{bool(keep)}` is selected by `{show(rest[0][0])[:80]}`, which is neither the limit kind nor a recognised marker; not decided")
+                continue
+            for f, kind in sentinels:
+                res, why = sentinel_sound(fx, f, kind, variants, finite)
+                if res is False:
+                    findings.append((fn, f"{fn}/marker/{f}", f"`{fn}` treats `{f}` being {'zero' if kind == 'zero' else 'None'} as \"no time limit\", but {why}: such a `go` is searched as if it were `go infinite` and is never answered on its own"))
+                elif res is None:
+                    notes.append(f"`{fn}`: marker `{f}` ({kind}): {why}; not decided")
+    return findings, n, notes
+
+
+def limit_field_by_variant(fx, field):
+    """[(selected TimeControl variant names, value stored in TimeStrategy.<field>)] over the paths of TimeStrategy::new;
+    None if that cannot be enumerated."""
+    tc = fx.adt("search::TimeControl")
+    variants = {v["discr"]: v["name"] for v in tc["variants"]}
+    new = fx.one("TimeStrategy::new")
+    ts = fx.adt("time_control::TimeStrategy")
+    names = [f["name"] for f in ts["variants"][0]["fields"]]
+    if field not in names:
+        return None
+    idx = names.index(field)
+    out = []
+    for conds, ret, _bb in decision_paths(new, max_paths=400) or []:
+        if ret is None:
+            continue
+        sel = None
+        for c, v in conds:
+            d = deep_strip(c)
+            if isinstance(d, tuple) and d and d[0] == "discr":
+                x = deep_strip(d[1])
+                while isinstance(x, tuple) and x and x[0] in ("ref", "deref"):
+                    x = deep_strip(x[1])
+                if isinstance(x, tuple) and x and x[0] == "arg" and "time_control" in str(x[2:]):
+                    sel = _selected(variants, v)
+        agg = next((x for x in walk(ret) if isinstance(x, tuple) and x and x[0] == "agg" and str(x[1]).endswith("TimeStrategy::TimeStrategy")), None)
+        if sel is None or agg is None or idx >= len(agg[2]):
+            return None
+        out.append((sel, deep_strip(agg[2][idx])))
+    return out or None
+
+
+def none_without_limit(fx, field):
+    """TimeStrategy::new leaves the Option-typed `field` None for every payload-free TimeControl variant."""
+    tc = fx.adt("search::TimeControl")
+    free = {v["name"] for v in tc["variants"] if not v["fields"]}
+    vals = limit_field_by_variant(fx, field)
+    if not vals:
+        return False
+    seen = False
+    for sel, val in vals:
+        if sel & free:
+            seen = True
+            if not (isinstance(val, tuple) and val and val[0] == "agg" and str(val[1]).endswith("Option::None")):
+                return False
+    return seen
+
+
+def sentinel_sound(fx, field, kind, variants, finite):
+    """In TimeStrategy::new, can a finite TimeControl variant produce the marker value in `field`?
+    True = no (sound), False = yes, None = unknown."""
+    new = fx.one("TimeStrategy::new")
+    ts = fx.adt("time_control::TimeStrategy")
+    names = [f["name"] for f in ts["variants"][0]["fields"]]
+    if field not in names:
+        return None, f"`{field}` is not a field of TimeStrategy"
+    idx = names.index(field)
+    paths = decision_paths(new, max_paths=400)
+    if not paths:
+        return None, "TimeStrategy::new not enumerable"
+    seen_finite = False
+    for conds, ret, _bb in paths:
+        if ret is None:
+            continue
+        sel = None
+        for c, v in conds:
+            d = deep_strip(c)
+            if isinstance(d, tuple) and d and d[0] == "discr":
+                x = deep_strip(d[1])
+                while isinstance(x, tuple) and x and x[0] in ("ref", "deref"):
+                    x = deep_strip(x[1])
+                if isinstance(x, tuple) and x and x[0] == "arg" and "time_control" in str(x[2:]):
+                    sel = _selected(variants, v)
+        if sel is None or not (sel & finite):
+            continue
+        seen_finite = True
+        agg = next((x for x in walk(ret) if isinstance(x, tuple) and x and x[0] == "agg" and str(x[1]).endswith("TimeStrategy::TimeStrategy")), None)
+        if agg is None or idx >= len(agg[2]):
+            return None, "constructed TimeStrategy not found on a finite-limit path"
+        val = deep_strip(agg[2][idx])
+        if kind == "none":
+            if isinstance(val, tuple) and val and val[0] == "agg" and str(val[1]).endswith("Option::Some"):
+                continue
+            if isinstance(val, tuple) and val and val[0] == "agg" and str(val[1]).endswith("Option::None"):
+                return False, f"TimeStrategy::new leaves it None for {sorted(sel & finite)}"
+            return None, f"value `{show(val)[:80]}` for {sorted(sel & finite)} is not a literal Some/None"
+        # kind == zero: only a positive lower clamp makes a computed duration provably non-zero
+        top = val
+        if isinstance(top, tuple) and top and top[0] == "call" and isinstance(top[1], str) and top[1].split("::")[-1] == "max" and \
+                any(find_calls(a, "Duration::from_millis", "Duration::from_secs", "Duration::from_micros") and not any(isinstance(x, tuple) and x and x[0] in ("arg", "field") for x in walk(a)) and
+                    any(isinstance(x, tuple) and x and x[0] == "const" and isinstance(x[1], int) and x[1] > 0 for x in walk(a)) for a in top[2]):
+            continue
+        return False, f"for {sorted(sel & finite)} TimeStrategy::new stores `{show(val)[:90]}` there, which is zero for a zero input (movetime 0, wtime 0 with no overhead)"
+    if not seen_finite:
+        return None, "no finite-limit path found in TimeStrategy::new"
+    return True, ""
+
+
+def rule_limit(fx, rep):
+    """'each go is answered ... when its limit is reached': the only searches told that there is no limit are those whose
+    TimeControl is the payload-free variant (see limit_verdicts). Owner of the comparison details: C14-USE."""
+    findings, n, notes = limit_verdicts(fx)
+    for x in notes:
+        rep.notes.append("C05-LIMIT: " + x)
+    for fn, key, msg in findings:
+        b = fx.one(fn)
+        rep.violation("C05-LIMIT", "C05-LIMIT/" + key, msg, {"fn": b.name, "file": b.file, "line": b.line})
+    rep.obligation(not findings, max(1, n))
+    rep.sample({"rule": "C05-LIMIT", "no_limit_paths_examined": n})
+    if n == 0 and not findings:
+        rep.notes.append("C05-LIMIT: no path of should_stop / should_start_new_search answers without consulting the clock; nothing to decide")
+    rep.rule("C05-LIMIT", n, 0, not findings, "only the payload-free time control is searched without a time limit")
 
 
 # ---- C05-STOPFLAG --------------------------------------------------------------------------
@@ -565,6 +827,13 @@ def rule_noblock(fx, rep, ex, arms, names=("IsReady", "Quit", "Position", "Debug
 
 U = "src/engine/uci/mod.rs"
 MUTANTS = [
+    {"name": "hashfull computed with an integer division by the table size (seeds C19-3 / C04-4b / C05-5b)", "expect": "C05-PANIC",
+     "edits": [("src/engine/transposition_table.rs", "        let decimal = self.occupied as f32 / self.data.len() as f32;\n        let permille = decimal * 1000.0;\n        permille as usize", "        self.occupied * 1000 / self.data.len()")]},
+    {"name": "benign: Option-typed limits, None = no limit (match form)", "benign": True, "edits": shared_mutants.OPT_MATCH},
+    {"name": "Option-typed hard limit left None for a fixed move time", "expect": "C05-LIMIT", "edits": shared_mutants.OPT_BAD},
+    {"name": "zero hard limit used as the no-limit marker (seed C05-5a)", "expect": "C05-LIMIT",
+     "edits": [("src/engine/search/time_control.rs", "        match self.time_control {\n            TimeControl::Clocks(_) => self.elapsed() > self.hard_stop,\n            TimeControl::ExactTime(time) => self.elapsed() > time,\n            TimeControl::Infinite => false,\n        }",
+                "        !self.hard_stop.is_zero() && self.elapsed() > self.hard_stop")]},
     {"name": "search thread lowers the stop flag when it begins (seed C05-4a)", "expect": "C05-STOPFLAG/writer",
      "edits": [("src/engine/search/time_control.rs", "    pub fn elapsed(&self) -> Duration {", "    pub fn begin(&mut self) {\n        self.force_stop.store(false, Ordering::Relaxed);\n    }\n\n    pub fn elapsed(&self) -> Duration {"),
                (U, "                    let mut persistent_state_handle = persistent_state.lock().unwrap();\n", "                    let mut persistent_state_handle = persistent_state.lock().unwrap();\n                    time_strategy.begin();\n")]},
